@@ -190,6 +190,7 @@ class Ctx:
                     status[n] = ok
                     self.logs[n] = log
                     self.cov.setdefault("coq_files", {})[n] = {"ok": ok, "s": round(dt, 1)}
+        self.failed_files = [n for n, s in status.items() if not s and "refuted" not in n]
         return {n: bool(s) for n, s in status.items()}
 
     def register_props(self, status: dict[str, bool]):
@@ -349,6 +350,10 @@ class Ctx:
                     rec = json.loads(line)
                     if rec.get("status") == "known" and rec.get("property") == self.pid:
                         known.append(rec)
+        # a file that does not compile while no obligation is affected must not go unnoticed
+        if getattr(self, "failed_files", None) and all(o["status"] == "discharged" for o in self.obligations.values()):
+            for n in self.failed_files:
+                self.fail(f"build:{n}", f"build:{n}", None, f"Coq file {n} does not compile", {"coq_log_tail": self.logs.get(n, "")[-2500:]}, found_input=False)
         # obligations that failed without an explicit failure record -> generic failure
         explicit = {f.obligation for f in self.failures}
         for name, ob in self.obligations.items():
